@@ -250,6 +250,7 @@ func (m *Manager[T]) scan(id string) error {
 
 		if err != nil {
 			log.Printf("Error starting client %v: %v", n, err)
+			continue
 		}
 
 		go func() {
